@@ -127,6 +127,32 @@ def toBocSteps (g : Dag) (root : Nat) (hasIdx hasCrc hasCache : Bool) : Nat := (
 /-- hashing work at construction: one pass over the references per significant level (≤ 4), per distinct cell -/
 def hashWork (g : Dag) : Nat := sumTo (fun v => 4 * (1 + deg g v)) g.length
 
+/-! ### `Cell.__init__` = `resolve_mask` + `calculate_hashes`, one call per distinct cell
+
+The constructor never descends into the referenced cells: it reads their cached `level_mask`, `_depths[i]`, `_hashes[i]`
+(`get_depth` / `get_hash` are list lookups).  Building a DAG = one constructor call per distinct cell, children first. -/
+
+/-- loop iterations of one constructor call: the `for r in self.refs` loop of `resolve_mask`, then per iteration of
+`for li in range(level + 1)` (`lv` of them, `level ≤ 3`): the iteration itself, the depth loop and the hash loop over the
+references.  (Upper bound: insignificant / skipped levels `continue` before the two inner loops.) -/
+def ctorSteps (lv d : Nat) : Nat := d + lv * (1 + 2 * d)
+
+/-- bytes fed to SHA-256 by one constructor call: per level the 2 descriptor bytes + the data (level 0; `size` counts
+descriptors + data) or the previous 32-byte hash (higher levels), then 2 + 32 bytes per reference -/
+def ctorBytes (lv d size : Nat) : Nat := lv * (max size 34 + 34 * d)
+
+/-- constructing every cell of the DAG once (`lv v` = levels hashed for cell `v`) -/
+def buildSteps (lv : Nat → Nat) (g : Dag) : Nat := sumTo (fun v => ctorSteps (lv v) (deg g v)) g.length
+def buildBytes (lv : Nat → Nat) (g : Dag) : Nat :=
+  sumTo (fun v => ctorBytes (lv v) (deg g v) ((g[v]?.map (·.size)).getD 0)) g.length
+
+/-- Σ of descriptor + data bytes over the distinct cells -/
+def cellBytes (g : Dag) : Nat := sumTo (fun v => (g[v]?.map (·.size)).getD 0) g.length
+
+/-- for contrast: hashing WITHOUT the per-cell cache (recompute the children's hashes on every path, the way the recursive
+`order` before 563b428 walked every path): constructor calls from cell `v`, fuel = depth -/
+def rehashCalls (g : Dag) : Nat → Nat → Nat := oldOrderCalls g
+
 /-! ## 3. BoC parsing -/
 
 /-- python `bs[a:b]` -/
@@ -330,6 +356,26 @@ def treeSize (g : DDag) : Nat → Nat → Nat
     | [] => 1
     | a :: rest => 1 + treeSize g f a + (match rest with | [] => 0 | b :: _ => treeSize g f b)
 
+/-- what a parse visits: `(entries, stops)` — `entries` = leaves reached with remaining key length 0 in an ordinary cell
+(each stores one key into `ret_dict`: distinct paths spell distinct keys, they differ at the fork bit where they part;
+only the root leaf of a `key_length = 0` dictionary has the empty key and is not stored), `stops` = edges that end in a
+non-ordinary cell (pruned branch / library cell: `deserialize_hashmap_node` returns without an entry). -/
+def dictOut (g : DDag) : Nat → Nat → Int → Nat × Nat
+  | 0, _, _ => (0, 0)
+  | f+1, v, keyLen =>
+    match g[v]? with
+    | none => (0, 0)
+    | some nd =>
+      match readLabel nd.bits keyLen with
+      | (none, _) => (0, 0)
+      | (some l, _) =>
+        let m : Int := keyLen - l
+        if !nd.ordinary then (0, 1) else
+        if m == 0 then (1, 0) else
+        match nd.kids with
+        | a :: b :: _ => ((dictOut g f a (m - 1)).1 + (dictOut g f b (m - 1)).1, (dictOut g f a (m - 1)).2 + (dictOut g f b (m - 1)).2)
+        | _ => (0, 0)
+
 /-! ## 5. TL `deserialize` -/
 namespace Tl
 
@@ -461,6 +507,12 @@ def fieldsLoop (rec : Bytes → Option Nat → Res) (data : Bytes) : List Field 
           | _ => flags
         fieldsLoop rec data rest i' flags' (steps + 1 + s)
 
+/-- a bare call (`deserialize(data, False, args)`) has `schema = None`, so the "untouchables" test of the bytes branch
+(`schema is not None and schema.name in self.untouchables …`) is false: EVERY bytes field is re-parsed, also the `data`
+field of `adnl.message.part` / `overlay.broadcastFec` that is left alone when the object is parsed boxed -/
+def bareFields (fs : List Field) : List Field :=
+  fs.map (fun f => match f.ty with | .bytes _ => { f with ty := .bytes true } | _ => f)
+
 /-- one level of `deserialize(data, boxed, args)` given the next level `rec` -/
 def deserLevel (tbl : Table) (rec : Bytes → Option Nat → Res) (data : Bytes) (mode : Option Nat) : Res :=
   match mode with
@@ -468,7 +520,7 @@ def deserLevel (tbl : Table) (rec : Bytes → Option Nat → Res) (data : Bytes)
     match byId tbl (data.take 4) with
     | none => .ok data.length 1                    -- unknown constructor: `return data, len(data)`
     | some s => fieldsLoop rec data (fieldsOf tbl s) 4 none 1
-  | some s => fieldsLoop rec data (fieldsOf tbl s) 0 none 1
+  | some s => fieldsLoop rec data (bareFields (fieldsOf tbl s)) 0 none 1
 
 /-- `TlSchemas.deserialize`; fuel = recursion depth -/
 def deser (tbl : Table) : Nat → Bytes → Option Nat → Res
@@ -477,6 +529,57 @@ def deser (tbl : Table) : Nat → Bytes → Option Nat → Res
 
 /-- the vector loop as coded BEFORE the repair (no guard): iterations = declared length -/
 def vecItersUnfixed (declared : Nat) : Nat := declared
+
+/-! ### table side conditions and constants of the total-work theorem (`c19_tl_total`) -/
+
+def Res.steps : Res → Nat
+  | .ok _ s => s
+  | .raised s _ => s
+  | .oof => 0
+
+/-- the schema a field type refers to WITHOUT a constructor id on the wire (bare sub-object / bare vector element):
+the only recursive calls of `deserialize` that need not consume input -/
+def bareRef : Ty → Option Nat
+  | .vec (some t) => some t
+  | .sub (some t) => some t
+  | _ => none
+
+/-- `bareOK tbl k s`: following bare references from schema `s` ends within `k` levels (k = 0: never) -/
+def bareOK (tbl : Table) : Nat → Nat → Bool
+  | 0, _ => false
+  | k+1, s => (fieldsOf tbl s).all (fun fld => match bareRef fld.ty with | none => true | some t => bareOK tbl k t)
+
+/-- side condition: the bare-reference graph of the table is acyclic with chains of at most `R` references
+(decidable: checked schema by schema).  A table with a bare cycle (`a x:a = A;`) makes `deserialize` recurse without
+consuming input until Python's RecursionError. -/
+def NoBareCycle (tbl : Table) (R : Nat) : Prop :=
+  tbl.all (fun sc => sc.fields.all (fun fld => match bareRef fld.ty with | none => true | some t => bareOK tbl R t)) = true
+
+instance (tbl : Table) (R : Nat) : Decidable (NoBareCycle tbl R) := by unfold NoBareCycle; infer_instance
+
+/-- side condition: constructor ids have (at least) 4 bytes, so a boxed object that is recognised consumed 4 bytes -/
+def Ids4 (tbl : Table) : Prop := ∀ s ∈ tbl, 4 ≤ s.id.length
+
+instance (tbl : Table) : Decidable (Ids4 tbl) := List.decidableBAll _ _
+
+/-- largest number of fields of a schema -/
+def maxFields (tbl : Table) : Nat := (tbl.map (fun s => s.fields.length)).foldr max 0
+
+/-- steps of a bare object with `M` fields per schema and `k` levels of bare nesting that consumes no input -/
+def tlA (M : Nat) : Nat → Nat
+  | 0 => 1
+  | k+1 => 1 + M * (1 + tlA M k)
+
+/-- the table constant of `c19_tl_total`: steps ≤ `tlK tbl R · (len + 1)²` -/
+def tlK (tbl : Table) (R : Nat) : Nat := 1 + tlA (maxFields tbl) (R + 2)
+
+/-- recursion-depth fuel that `c19_tl_total` shows sufficient: each boxed level consumes ≥ 4 bytes, between two boxed
+levels there are at most `R + 1` bare levels -/
+def tlFuel (R len : Nat) : Nat := (len / 4 + 1) * (R + 2)
+
+/-- smallest `R ≤ bound` with `NoBareCycle tbl R` (driver: reports the side condition of the table it was given) -/
+def bareDepth? (tbl : Table) (bound : Nat) : Option Nat :=
+  (List.range (bound + 1)).find? (fun R => decide (NoBareCycle tbl R))
 
 end Tl
 
